@@ -4,6 +4,7 @@ package interp
 // prefixes still to run. Each worker owns a solver process; the path condition lives in the solver context.
 
 import (
+	"os"
 	"fmt"
 	"go/types"
 	"math/big"
@@ -66,9 +67,65 @@ type pathCtx struct {
 	depth     int
 	// per-path statistics
 	solverBranches int
-	ufCalls        map[string][][]*expr
+	ufPoints       map[string][]ufPoint
+	ufApps         map[string][]*expr
 	inputLen       int // declared input buffer length (memory monitor); -1 = none
 	ranInit        bool
+	facts          map[string]bool // small conditions already decided on this path (syntactic memo)
+}
+
+// condKey is a canonical text for small boolean terms (equalities are orientation-free); "" = not memoised.
+func condKey(e *expr) (key string, neg bool) {
+	if e.size > 48 {
+		return "", false
+	}
+	if e.op == "not" && len(e.args) == 1 {
+		k, n := condKey(e.args[0])
+		return k, !n
+	}
+	if e.op == "=" && len(e.args) == 2 {
+		var a, b strings.Builder
+		e.args[0].write(&a, nil)
+		e.args[1].write(&b, nil)
+		x, y := a.String(), b.String()
+		if x > y {
+			x, y = y, x
+		}
+		return "(= " + x + " " + y + ")", false
+	}
+	var sb strings.Builder
+	e.write(&sb, nil)
+	return sb.String(), false
+}
+
+func (c *pathCtx) noteFact(e *expr) {
+	k, neg := condKey(e)
+	if k == "" {
+		return
+	}
+	if c.facts == nil {
+		c.facts = map[string]bool{}
+	}
+	c.facts[k] = !neg
+}
+
+// knownFact reports whether cond was already decided on this path.
+var checkPC = os.Getenv("SYMGO_CHECKPC") != ""
+var noFacts = os.Getenv("SYMGO_NOFACTS") != ""
+
+func (c *pathCtx) knownFact(cond *expr) (val, ok bool) {
+	if c.facts == nil || noFacts {
+		return false, false
+	}
+	k, neg := condKey(cond)
+	if k == "" {
+		return false, false
+	}
+	v, ok := c.facts[k]
+	if !ok {
+		return false, false
+	}
+	return v != neg, true
 }
 
 func (c *pathCtx) freshName(base string) string {
@@ -134,6 +191,13 @@ func (c *pathCtx) assume(e *expr) {
 	}
 	c.w.solver.assert(e)
 	c.pcN++
+	c.noteFact(e)
+	if checkPC {
+		if r, _ := c.w.solver.check(nil, nil); r == resUnsat {
+			fmt.Fprintf(os.Stderr, "PC became unsat after assuming %s (replaying=%v)\n", e.String(), len(c.trace) < len(c.prefix))
+			panic(pathAbort{"infeasible", "pc unsat (debug)"})
+		}
+	}
 	if c.lastModel != nil {
 		if v, ok := e.tryEval(c.lastModel); !ok || v != true {
 			c.lastModel = nil
@@ -180,6 +244,9 @@ func (i *interpreter) branch(cond *expr) bool {
 		return cond.bval
 	}
 	c := i.ctx
+	if v, ok := c.knownFact(cond); ok {
+		return v
+	}
 	pos := len(c.trace)
 	replay := pos < len(c.prefix)
 	var sides [2]satResult
